@@ -181,6 +181,42 @@ fn reser_parts(bytes: &[u8]) -> Result<R<(Vec<u8>, usize)>, ()> {
         Ok((w.finalize()?, n))
     })
 }
+/// every normal entry through NormalEntry::with_metadata (the path of strip / chmod / chown / migrate), then written
+fn withmeta(bytes: &[u8], c: Option<u64>, m: Option<u64>, a: Option<u64>, mode: Option<u16>) -> Result<R<(Vec<u8>, usize)>, ()> {
+    use std::time::Duration;
+    guard(|| -> R<(Vec<u8>, usize)> {
+        let mut ar = Archive::read_header(bytes)?;
+        let mut w = Archive::write_header(Vec::new())?;
+        let mut n = 0;
+        for e in ar.entries() {
+            n += match e? {
+                ReadEntry::Normal(x) => {
+                    let md = Metadata::new()
+                        .with_created(c.map(Duration::from_secs))
+                        .with_modified(m.map(Duration::from_secs))
+                        .with_accessed(a.map(Duration::from_secs))
+                        .with_permission(mode.map(|md| Permission::new(1, "u".into(), 2, "g".into(), md)));
+                    w.add_entry(x.with_metadata(md))?
+                }
+                ReadEntry::Solid(x) => w.add_entry(x)?,
+            };
+        }
+        Ok((w.finalize()?, n))
+    })
+}
+/// (name, raw_file_size, compressed_size) of every normal entry
+fn entry_sizes(bytes: &[u8]) -> Option<Vec<(String, Option<u128>, usize)>> {
+    guard(|| -> R<Vec<(String, Option<u128>, usize)>> {
+        let mut ar = Archive::read_header(bytes)?;
+        let mut out = Vec::new();
+        for e in ar.entries() {
+            if let ReadEntry::Normal(x) = e? {
+                out.push((x.header().path().to_string(), x.metadata().raw_file_size(), x.metadata().compressed_size()));
+            }
+        }
+        Ok(out)
+    }).ok().and_then(|r| r.ok())
+}
 fn solid(bytes: &[u8]) -> String {
     match guard(|| -> R<(Vec<String>, R<()>)> {
         let mut a = Archive::read_header(bytes)?;
@@ -473,6 +509,25 @@ fn run(c: &Case, oracle: &mut Vec<String>) -> String {
                 }
             }
             s
+        }
+        "withmeta" => {
+            let b = unhex(a[0]).unwrap();
+            let o = |i: usize| -> Option<u64> { a.get(i).filter(|x| **x != "-").and_then(|x| x.parse().ok()) };
+            let r = withmeta(&b, o(1), o(2), o(3), o(4).map(|x| x as u16));
+            if let Ok(Ok((out, _))) = &r {
+                // C18 / C13: replacing times and permission leaves the entry's recorded sizes alone
+                match (entry_sizes(&b), entry_sizes(out)) {
+                    (Some(x), Some(y)) => {
+                        if x != y {
+                            let d = x.iter().zip(&y).find(|(p, q)| p != q).map(|(p, q)| format!("{:?} -> {:?}", p, q)).unwrap_or_default();
+                            oracle.push(format!("with_metadata changed a recorded size (name, raw size, compressed size): {}", d));
+                        }
+                    }
+                    (Some(_), None) => oracle.push("the archive written after with_metadata does not read back".into()),
+                    _ => {}
+                }
+            }
+            show_res(r, |(b, n)| format!("{} {}", hex(&b), n))
         }
         "reser" | "reser2" => {
             let b = unhex(a[0]).unwrap();
@@ -921,6 +976,11 @@ fn gen(prop: &str, tier: &str, seed: u64) -> Vec<String> {
         }
     }
     if want("C13") || want("C18") {
+        for (i, (_, b)) in samples.iter().enumerate() {
+            let o = |x: Option<u64>| x.map(|v| v.to_string()).unwrap_or("-".into());
+            v.push(format!("withmeta\t{}\t{}\t{}\t{}\t{}", hex(b), o(None), o(Some(1_700_000_000 + i as u64)), o(None), o(Some(0o640))));
+            v.push(format!("withmeta\t{}\t-\t-\t-\t-", hex(b)));
+        }
         for (_, b) in &samples {
             v.push(format!("rawcopy\t{}", hex(b)));
             v.push(format!("reser\t{}", hex(b)));
@@ -991,6 +1051,9 @@ fn gen(prop: &str, tier: &str, seed: u64) -> Vec<String> {
             }
             cs.push((b"AEND".to_vec(), vec![]));
             let b = raw_archive(0, &cs);
+            if i % 5 == 0 {
+                v.push(format!("withmeta\t{}\t{}\t-\t{}\t{}", hex(&b), r.below(1 << 33), r.below(1 << 33), if r.chance(1, 2) { "493".to_string() } else { "-".to_string() }));
+            }
             match i % 4 {
                 0 => v.push(format!("rawcopy\t{}", hex(&b))),
                 1 => v.push(format!("reser\t{}", hex(&b))),
